@@ -172,8 +172,8 @@ impl Handler {
         self.record(format!("mapAliasRet(n={:?})", n));
         Ok(MapAlias(self.ret().dmap))
     }
-    fn do_dbl_ret(&self, x: f64) -> Result<Doubles, Error> {
-        self.record(format!("dblRet(x={:?})", x.to_bits()));
+    fn do_dbl_ret(&self, x: f64, weird: Option<String>) -> Result<Doubles, Error> {
+        self.record(format!("dblRet(x={:?}, weird={:?})", x.to_bits(), weird));
         doubles(&self.ret().doubles_json)
     }
 }
@@ -213,8 +213,8 @@ impl VerifService<RemoteBody, Vec<u8>> for Handler {
     fn safe_body(&self, safe_body_arg: i32) -> Result<i32, Error> {
         self.do_safe_body(safe_body_arg)
     }
-    fn dbl_ret(&self, x: f64) -> Result<Doubles, Error> {
-        self.do_dbl_ret(x)
+    fn dbl_ret(&self, x: f64, weird: Option<String>) -> Result<Doubles, Error> {
+        self.do_dbl_ret(x, weird)
     }
     fn list_alias_ret(&self, n: i32) -> Result<ListAlias, Error> {
         self.do_list_alias_ret(n)
@@ -262,8 +262,8 @@ impl AsyncVerifService<RemoteBody, Vec<u8>> for Handler {
     async fn safe_body(&self, safe_body_arg: i32) -> Result<i32, Error> {
         self.do_safe_body(safe_body_arg)
     }
-    async fn dbl_ret(&self, x: f64) -> Result<Doubles, Error> {
-        self.do_dbl_ret(x)
+    async fn dbl_ret(&self, x: f64, weird: Option<String>) -> Result<Doubles, Error> {
+        self.do_dbl_ret(x, weird)
     }
     async fn list_alias_ret(&self, n: i32) -> Result<ListAlias, Error> {
         self.do_list_alias_ret(n)
